@@ -560,3 +560,57 @@ def mutation_sites(func: ast.AST, root_names: set[str], include_nested: bool = F
             if r in root_names:
                 out.append((n, r))  # type: ignore[arg-type]
     return out
+
+
+def slice_text(fn: ast.AST, expr: Optional[ast.AST], depth: int = 4, _seen: Optional[set] = None) -> str:
+    """Source text of *expr* together with the right-hand sides of the locals it is built from
+    (backward slice through plain assignments, *depth* levels)."""
+    if expr is None:
+        return ""
+    _seen = _seen if _seen is not None else set()
+    out = [ast.unparse(expr)]
+    if depth > 0:
+        for nm in sorted({x.id for x in ast.walk(expr) if isinstance(x, ast.Name)}):
+            if nm in _seen:
+                continue
+            _seen.add(nm)
+            for v in assigned_value(fn, nm):
+                out.append(slice_text(fn, v, depth - 1, _seen))
+    return " ; ".join(out)
+
+
+def returned_values(fn: ast.AST) -> List[ast.AST]:
+    """Expressions a function can return: returned expressions, with returned locals replaced by the
+    values assigned to them (one level)."""
+    out: List[ast.AST] = []
+    for r in walk_no_nested(fn):
+        if isinstance(r, ast.Return) and r.value is not None:
+            if isinstance(r.value, ast.Name):
+                vals = assigned_value(fn, r.value.id)
+                out.extend(vals if vals else [r.value])
+            else:
+                out.append(r.value)
+    return out
+
+
+def dict_items_built(fn: ast.AST, expr: ast.AST) -> Dict[str, ast.AST]:
+    """Constant keys (and their value expressions) of the mapping *expr* evaluates to: keys of a dict
+    literal, nested `**{...}` spreads / conditional spreads, and later `name[key] = value` stores when
+    *expr* is (assigned to) a local."""
+    out: Dict[str, ast.AST] = {}
+
+    def from_dict(d: ast.AST) -> None:
+        if isinstance(d, ast.Dict):
+            for k, v in zip(d.keys, d.values):
+                if k is None:
+                    for sub in ast.walk(v):
+                        if isinstance(sub, ast.Dict):
+                            from_dict(sub)
+                elif isinstance(k, ast.Constant):
+                    out.setdefault(k.value, v)
+        elif isinstance(d, ast.IfExp):
+            from_dict(d.body)
+            from_dict(d.orelse)
+
+    from_dict(expr)
+    return out
